@@ -5,7 +5,7 @@
 cd /verif
 for f in "$@"; do
   msg=$(grep -o '`fix: [^`]*`' "$f" | head -1 | tr -d '`' | sed 's/[[:space:]]*$//')
-  [ -n "$msg" ] || msg=$(grep -v '^[-+ @]' "$f" | grep -m1 -o 'fix: .*' | head -1 | sed 's/[[:space:]]*$//')
+  [ -n "$msg" ] || msg=$(grep -v '^[-+@]' "$f" | grep -v '^ [^ ]' | grep -m1 -o 'fix: .*' | head -1 | sed 's/[[:space:]]*$//')
   [ -n "$msg" ] || { echo "NO COMMIT MESSAGE in $f"; exit 1; }
   out=$(lib/applyfix.sh "$f" "$msg" 2>&1)
   echo "== $f"; echo "$out" | tail -3
